@@ -1,0 +1,19 @@
+//go:build verif
+
+package prc
+
+// VerifLoad is a read-only accessor for the verification harness in /verif: the process currently
+// stored in the local registry under the logical address (no side effects, no cache involved).
+func (rc *ResourceController) VerifLoad(address LogicalAddress) (Process, bool) {
+	return rc.processes.Load(address)
+}
+
+// VerifCache is a read-only accessor for the verification harness in /verif: the process this
+// reference object has cached (nil when the cache is empty).
+func (pid *ProcessId) VerifCache() Process {
+	p := pid.cache.Load()
+	if p == nil {
+		return nil
+	}
+	return *p
+}
